@@ -1200,7 +1200,11 @@ class Executor:
         f = None if callee.startswith(("move ", "copy ")) else self.P.resolve(callee)
         if f is not None and any(re.search(p, ncallee) or re.search(p, f.name) for p in self.cfg.get("inline", [])):
             return self.run_function(f, args, depth + 1)
-        # 4. havoc
+        # 4. havoc - only for calls that cannot write through their arguments; anything else is an
+        #    unmodelled effect and makes the path (and the target) inconclusive rather than wrong
+        for a in args:
+            if isinstance(a, VRef) and a.mut:
+                raise Unsupported(f"unmodelled call with a &mut argument: {ncallee}")
         return self.havoc(ncallee, args, ret_ty)
 
     def call_closure(self, clo, args, depth=3):
